@@ -18,6 +18,45 @@ use std::borrow::Borrow;
 use std::marker::PhantomData;
 
 pub const CAP: usize = 4;
+const _: () = assert!(CAP == 4); // cell()/cell_mut() enumerate the cells
+
+/// Address cell `i` through a case split, so that every access is to a CONCRETE
+/// array element even when `i` is symbolic (the result of a search, a rotation).
+/// Measured reason (Kani 0.68 / CBMC 6.11): `slots[i]` with a symbolic `i` on
+/// cells whose `None` is niche-encoded at a non-zero offset (e.g.
+/// `Option<(PeerId, HashSet<ConnectionId>)>`, niche = tag of the nested set's first
+/// cell) produced spurious "unreachable code" counterexamples that the native
+/// replay rejects; see units/C52 shim_selftest_peer_key_two_entries.  Cells with an
+/// explicit tag (e.g. `Option<PeerId>`, `Option<(PeerId, u64)>`) were never affected
+/// and keep plain indexing; the choice is a compile-time constant.
+fn niche_encoded<X>() -> bool {
+    // `None` lives inside X's bytes exactly when the Option adds no tag of its own
+    std::mem::size_of::<Option<X>>() == std::mem::size_of::<X>()
+}
+fn cell<X>(slots: &[Option<X>; CAP], i: usize) -> &Option<X> {
+    if !niche_encoded::<X>() {
+        return &slots[i]; // explicit tag: plain indexing is read correctly (and is much cheaper)
+    }
+    match i {
+        0 => &slots[0],
+        1 => &slots[1],
+        2 => &slots[2],
+        3 => &slots[3],
+        _ => overflow(),
+    }
+}
+fn cell_mut<X>(slots: &mut [Option<X>; CAP], i: usize) -> &mut Option<X> {
+    if !niche_encoded::<X>() {
+        return &mut slots[i];
+    }
+    match i {
+        0 => &mut slots[0],
+        1 => &mut slots[1],
+        2 => &mut slots[2],
+        3 => &mut slots[3],
+        _ => overflow(),
+    }
+}
 
 fn overflow() -> ! {
     panic!("verif shim capacity exceeded")
@@ -179,12 +218,12 @@ impl<K: Eq, V, S> HashMap<K, V, S> {
     pub fn insert(&mut self, k: K, v: V) -> Option<V> {
         match self.find(&k) {
             Some(i) => {
-                let slot = self.slots[i].as_mut().unwrap();
+                let slot = cell_mut(&mut self.slots, i).as_mut().unwrap();
                 Some(std::mem::replace(&mut slot.1, v))
             }
             None => {
                 let i = pick_free(&self.slots);
-                self.slots[i] = Some((k, v));
+                *cell_mut(&mut self.slots, i) = Some((k, v));
                 None
             }
         }
@@ -194,7 +233,7 @@ impl<K: Eq, V, S> HashMap<K, V, S> {
         K: Borrow<Q>,
     {
         match self.find(k) {
-            Some(i) => self.slots[i].as_ref().map(|(_, v)| v),
+            Some(i) => cell(&self.slots, i).as_ref().map(|(_, v)| v),
             None => None,
         }
     }
@@ -203,7 +242,7 @@ impl<K: Eq, V, S> HashMap<K, V, S> {
         K: Borrow<Q>,
     {
         match self.find(k) {
-            Some(i) => self.slots[i].as_ref().map(|(k, v)| (k, v)),
+            Some(i) => cell(&self.slots, i).as_ref().map(|(k, v)| (k, v)),
             None => None,
         }
     }
@@ -212,7 +251,7 @@ impl<K: Eq, V, S> HashMap<K, V, S> {
         K: Borrow<Q>,
     {
         match self.find(k) {
-            Some(i) => self.slots[i].as_mut().map(|(_, v)| v),
+            Some(i) => cell_mut(&mut self.slots, i).as_mut().map(|(_, v)| v),
             None => None,
         }
     }
@@ -227,7 +266,7 @@ impl<K: Eq, V, S> HashMap<K, V, S> {
         K: Borrow<Q>,
     {
         match self.find(k) {
-            Some(i) => self.slots[i].take().map(|(_, v)| v),
+            Some(i) => cell_mut(&mut self.slots, i).take().map(|(_, v)| v),
             None => None,
         }
     }
@@ -236,16 +275,16 @@ impl<K: Eq, V, S> HashMap<K, V, S> {
         K: Borrow<Q>,
     {
         match self.find(k) {
-            Some(i) => self.slots[i].take(),
+            Some(i) => cell_mut(&mut self.slots, i).take(),
             None => None,
         }
     }
     pub fn entry(&mut self, k: K) -> hash_map::Entry<'_, K, V> {
         match self.find(&k) {
-            Some(i) => hash_map::Entry::Occupied(hash_map::OccupiedEntry { slot: &mut self.slots[i], key: k }),
+            Some(i) => hash_map::Entry::Occupied(hash_map::OccupiedEntry { slot: cell_mut(&mut self.slots, i), key: k }),
             None => {
                 let i = pick_free(&self.slots);
-                hash_map::Entry::Vacant(hash_map::VacantEntry { slot: &mut self.slots[i], key: k })
+                hash_map::Entry::Vacant(hash_map::VacantEntry { slot: cell_mut(&mut self.slots, i), key: k })
             }
         }
     }
@@ -307,7 +346,7 @@ impl<'a, K, V> Iterator for Iter<'a, K, V> {
         while self.pos < CAP {
             let p = (self.pos + self.rot) % CAP;
             self.pos += 1;
-            if let Some((k, v)) = &self.slots[p] {
+            if let Some((k, v)) = cell(self.slots, p) {
                 return Some((k, v));
             }
         }
@@ -377,7 +416,7 @@ impl<K, V> Iterator for IntoIter<K, V> {
         while self.pos < CAP {
             let p = (self.pos + self.rot) % CAP;
             self.pos += 1;
-            if let Some(x) = self.slots[p].take() {
+            if let Some(x) = cell_mut(&mut self.slots, p).take() {
                 return Some(x);
             }
         }
@@ -591,15 +630,15 @@ impl<T: Eq, S> HashSet<T, S> {
             return false;
         }
         let i = pick_free(&self.slots);
-        self.slots[i] = Some(x);
+        *cell_mut(&mut self.slots, i) = Some(x);
         true
     }
     pub fn replace(&mut self, x: T) -> Option<T> {
         match self.find(&x) {
-            Some(i) => self.slots[i].replace(x),
+            Some(i) => cell_mut(&mut self.slots, i).replace(x),
             None => {
                 let i = pick_free(&self.slots);
-                self.slots[i] = Some(x);
+                *cell_mut(&mut self.slots, i) = Some(x);
                 None
             }
         }
@@ -615,7 +654,7 @@ impl<T: Eq, S> HashSet<T, S> {
         T: Borrow<Q>,
     {
         match self.find(k) {
-            Some(i) => self.slots[i].as_ref(),
+            Some(i) => cell(&self.slots, i).as_ref(),
             None => None,
         }
     }
@@ -625,7 +664,7 @@ impl<T: Eq, S> HashSet<T, S> {
     {
         match self.find(k) {
             Some(i) => {
-                self.slots[i] = None;
+                *cell_mut(&mut self.slots, i) = None;
                 true
             }
             None => false,
@@ -636,7 +675,7 @@ impl<T: Eq, S> HashSet<T, S> {
         T: Borrow<Q>,
     {
         match self.find(k) {
-            Some(i) => self.slots[i].take(),
+            Some(i) => cell_mut(&mut self.slots, i).take(),
             None => None,
         }
     }
@@ -692,7 +731,7 @@ impl<'a, T> Iterator for SetIter<'a, T> {
         while self.pos < CAP {
             let p = (self.pos + self.rot) % CAP;
             self.pos += 1;
-            if let Some(x) = &self.slots[p] {
+            if let Some(x) = cell(self.slots, p) {
                 return Some(x);
             }
         }
@@ -715,7 +754,7 @@ impl<T> Iterator for SetIntoIter<T> {
         while self.pos < CAP {
             let p = (self.pos + self.rot) % CAP;
             self.pos += 1;
-            if let Some(x) = self.slots[p].take() {
+            if let Some(x) = cell_mut(&mut self.slots, p).take() {
                 return Some(x);
             }
         }
@@ -797,10 +836,12 @@ impl<K: Eq, V> LruCache<K, V> {
     }
     /// remove slot i keeping the others compact and in order
     fn take_at(&mut self, i: usize) -> (K, V) {
-        let e = self.slots[i].take().unwrap();
-        let mut j = i;
+        let e = cell_mut(&mut self.slots, i).take().unwrap();
+        let mut j = 0;
         while j + 1 < CAP {
-            self.slots[j] = self.slots[j + 1].take();
+            if j >= i {
+                self.slots[j] = self.slots[j + 1].take();
+            }
             j += 1;
         }
         e
@@ -810,7 +851,7 @@ impl<K: Eq, V> LruCache<K, V> {
         if n >= CAP {
             overflow();
         }
-        self.slots[n] = Some(e);
+        *cell_mut(&mut self.slots, n) = Some(e);
     }
     pub fn insert(&mut self, k: K, v: V) -> Option<V> {
         match self.find(&k) {
@@ -837,7 +878,7 @@ impl<K: Eq, V> LruCache<K, V> {
                 let e = self.take_at(i);
                 self.push_mru(e);
                 let n = self.len();
-                self.slots[n - 1].as_ref().map(|(_, v)| v)
+                cell(&self.slots, n - 1).as_ref().map(|(_, v)| v)
             }
             None => None,
         }
@@ -851,7 +892,7 @@ impl<K: Eq, V> LruCache<K, V> {
                 let e = self.take_at(i);
                 self.push_mru(e);
                 let n = self.len();
-                self.slots[n - 1].as_mut().map(|(_, v)| v)
+                cell_mut(&mut self.slots, n - 1).as_mut().map(|(_, v)| v)
             }
             None => None,
         }
@@ -861,7 +902,7 @@ impl<K: Eq, V> LruCache<K, V> {
         K: Borrow<Q>,
     {
         match self.find(k) {
-            Some(i) => self.slots[i].as_ref().map(|(_, v)| v),
+            Some(i) => cell(&self.slots, i).as_ref().map(|(_, v)| v),
             None => None,
         }
     }
@@ -895,7 +936,7 @@ impl<'a, K, V> Iterator for LruIter<'a, K, V> {
         while self.pos < CAP {
             let p = self.pos;
             self.pos += 1;
-            if let Some((k, v)) = &self.slots[p] {
+            if let Some((k, v)) = cell(self.slots, p) {
                 return Some((k, v));
             }
         }
